@@ -168,6 +168,16 @@ def run_ctor(case):
         forms.append(("1-d: (name, labels) tuple", lambda: da.DimArray(vals, (dims[0], larr[0].copy()))))
         forms.append(("1-d: labels, name", lambda: da.DimArray(vals, larr[0].copy(), dims[0])))
         forms.append(("1-d: (name, Axis of another name) tuple", lambda: da.DimArray(vals, (dims[0], da.Axis(larr[0].copy(), "other_")))))
+        if len(labels[0]):      # (an empty flat list cannot be told from an empty list of label lists)
+            forms.append(("1-d: axes=labels, dims=bare name", lambda: da.DimArray(vals, axes=larr[0].copy(), dims=dims[0])))
+            forms.append(("1-d: labels=labels, dims=bare name", lambda: da.DimArray(vals, labels=list(labels[0]), dims=dims[0])))
+        # a bare name and no labels: the default labels 0..n-1 under that name
+        for name, f in (("DimArray(values, dims=bare name)", lambda: da.DimArray(vals, dims=dims[0])), ("zeros(dims=bare name, shape=)", lambda: da.zeros(dims=dims[0], shape=tuple(vals.shape))),
+                        ("DimArray(values, dims=[name])", lambda: da.DimArray(vals, dims=[dims[0]]))):
+            what = "constructor form '%s' dims=%s" % (name, dims)
+            res = lib(f, what=what, sig=sig)
+            wellformed(res, what, sig)
+            check(tuple(res.dims) == tuple(dims) and core.same_labels(res.axes[0].values, list(range(len(labels[0])))), "default-labels-under-the-given-name", {"what": what, "got": core.brief(res)}, sig)
     for name, f in forms:
         what = "constructor form '%s' dims=%s labels=%s" % (name, dims, labels)
         res = lib(f, what=what, sig=sig)
